@@ -223,6 +223,13 @@ class MockNumba:
 
 class MockCuda:
 
+    class atomic:
+        @staticmethod
+        def add(ary, idx, val):
+            old = ary[idx]
+            ary[idx] += val
+            return old
+
     def __init__(self):
         self.x = 0
         self.y = 0
